@@ -128,14 +128,40 @@ def _flags(node: ast.expr) -> int:
     raise TranslatorError(f"unrecognised flags expression {ast.dump(node)}")
 
 
-def regex_source(node: ast.expr):
+def const_str(node: ast.expr, relpath: str | None = None):
+    """String/bytes value of: a literal; an f-string whose holes are module-level names bound to
+    such values; `re.escape(<such value>)`."""
+    if isinstance(node, ast.Constant) and isinstance(node.value, (str, bytes)):
+        return node.value
+    if isinstance(node, ast.JoinedStr):
+        out = ""
+        for part in node.values:
+            if isinstance(part, ast.Constant) and isinstance(part.value, str):
+                out += part.value
+            elif isinstance(part, ast.FormattedValue) and part.conversion == -1 and part.format_spec is None:
+                v = const_str(part.value, relpath)
+                if not isinstance(v, str):
+                    raise TranslatorError("f-string hole is not a str")
+                out += v
+            else:
+                raise TranslatorError("unsupported f-string part")
+        return out
+    if isinstance(node, ast.Name) and relpath is not None:
+        return const_str(find_assign(relpath, node.id), relpath)
+    if (isinstance(node, ast.Call) and isinstance(node.func, ast.Attribute) and node.func.attr == "escape"
+            and isinstance(node.func.value, ast.Name) and node.func.value.id == "re" and len(node.args) == 1 and not node.keywords):
+        return re.escape(const_str(node.args[0], relpath))
+    raise TranslatorError(f"not a constant string: {ast.dump(node)[:200]}")
+
+
+def regex_source(node: ast.expr, relpath: str | None = None):
     """(pattern, flags, is_bytes) of a `re.compile(<literal>[, flags])` expression."""
     if not (isinstance(node, ast.Call) and isinstance(node.func, ast.Attribute) and node.func.attr == "compile"
             and isinstance(node.func.value, ast.Name) and node.func.value.id == "re"):
         raise TranslatorError(f"not a re.compile call: {ast.dump(node)[:200]}")
     if not node.args:
         raise TranslatorError("re.compile without pattern")
-    pat = literal(node.args[0])
+    pat = const_str(node.args[0], relpath)
     flags = 0
     if len(node.args) > 1:
         flags |= _flags(node.args[1])
